@@ -202,11 +202,15 @@ class Translator(object):
         if isinstance(e, ast.Name):
             if e.id not in env:
                 self.fail(e, "unbound name")
+            if e.id in getattr(self, "unwrap", {}):
+                return self.unwrap[e.id], "num"      # inside try/except TypeError: the number in Some
             return cname(e.id), env[e.id]
         if isinstance(e, ast.Attribute):
             ch = self.chain(e)
             if ch is None or ch not in env:
                 self.fail(e, "attribute chain not in the type table")
+            if ch in getattr(self, "unwrap", {}):
+                return self.unwrap[ch], "num"
             return self.chain_name(ch), env[ch]
         if isinstance(e, ast.BinOp):
             if type(e.op) not in d.binop:
@@ -512,8 +516,23 @@ class Translator(object):
             if len(s.targets) != 1:
                 self.fail(s, "multiple assignment targets")
             t = s.targets[0]
+            if (isinstance(t, ast.Tuple) and isinstance(s.value, ast.Tuple) and
+                    len(t.elts) == len(s.value.elts) and len(t.elts) >= 2):
+                # parallel assignment  a, b = x, y : all right hand sides are evaluated first
+                vals = [self.expr(v, env) for v in s.value.elts]
+                tmps = [self.fresh("rhs") for _ in vals]
+                pre = "".join("let %s := %s in\n%s" % (tm, c, pad) for tm, (c, _) in zip(tmps, vals))
+
+                def chain_bind(k, env_k):
+                    if k == len(tmps):
+                        return cont(env_k)
+                    return self.bind(t.elts[k], tmps[k], vals[k][1], env_k,
+                                     lambda e2: chain_bind(k + 1, e2), pad, s)
+                return pre + chain_bind(0, env)
             c, ty = self.expr(s.value, env)
             return self.bind(t, c, ty, env, cont, pad, s)
+        if isinstance(s, ast.Try):
+            return self.trystmt(s, rest, env, k, ret, ind)
         if isinstance(s, ast.AugAssign):
             load = ast.copy_location(ast.BinOp(left=self.as_load(s.target), op=s.op, right=s.value), s)
             c, ty = self.expr(load, env)
@@ -568,6 +587,62 @@ class Translator(object):
                 env2[x.id] = "num"
             return "let '(%s, %s) := %s in\n%s%s" % (cname(t.elts[0].id), cname(t.elts[1].id), c, pad, cont(env2))
         self.fail(s, "assignment target")
+
+    def trystmt(self, s, rest, env, k, ret, ind):
+        """try: <one assignment whose right hand side does arithmetic on values that are None or a number>
+           except TypeError: <assignments>
+        CPython raises TypeError for `number - None` / `None - number` / `None - None` before anything is
+        assigned, so:   match the None-able operands with | Some .. => body;rest | _ => handler;rest"""
+        pad = "  " * ind
+        if s.orelse or s.finalbody or len(s.handlers) != 1:
+            self.fail(s, "try shape")
+        h = s.handlers[0]
+        if not (isinstance(h.type, ast.Name) and h.type.id == "TypeError" and h.name is None):
+            self.fail(s, "only `except TypeError:` is supported")
+        if len(s.body) != 1 or not isinstance(s.body[0], ast.Assign) or len(s.body[0].targets) != 1:
+            self.fail(s, "try body must be a single assignment")
+        for hs in h.body:
+            if not isinstance(hs, ast.Assign):
+                self.fail(hs, "handler statement")
+        asg = s.body[0]
+        ops = []                      # None-able operands, in evaluation order
+        for node in ast.walk(asg.value):
+            key = None
+            if isinstance(node, ast.Name) and isinstance(node.ctx, ast.Load):
+                key = node.id
+            elif isinstance(node, ast.Attribute):
+                key = self.chain(node)
+            if key is not None and env.get(key) == "onum" and key not in ops:
+                ops.append(key)
+        if not ops:
+            self.fail(s, "no None-able operand: TypeError cannot be the modelled failure")
+        # every None-able operand must be a direct operand of arithmetic (not passed around)
+        for node in ast.walk(asg.value):
+            if isinstance(node, ast.Call):
+                for a in node.args:
+                    kk = a.id if isinstance(a, ast.Name) else self.chain(a) if isinstance(a, ast.Attribute) else None
+                    if kk in ops:
+                        self.fail(s, "None-able value passed to a call")
+        names = {o: self.fresh("some") for o in ops}
+        self.unwrap = names
+        try:
+            c, ty = self.expr(asg.value, env)
+        finally:
+            self.unwrap = {}
+
+        def cont(env2):
+            return self.block(rest, env2, k, ret, ind + 1)
+
+        okb = self.bind(asg.targets[0], c, ty, dict(env), cont, pad + "  ", asg)
+        errb = self.block(list(h.body) + rest, dict(env), k, ret, ind + 1)
+
+        def opname(o):
+            return self.chain_name(o) if o in self.chainmap else cname(o)
+        scrut = ", ".join(opname(o) for o in ops)
+        pat = ", ".join("Some %s" % names[o] for o in ops)
+        wild = ", ".join("_" for _ in ops)
+        return "match %s with\n%s| %s =>\n%s  %s\n%s| %s =>\n%s  %s\n%send" % (
+            scrut, pad, pat, pad, okb, pad, wild, pad, errb, pad)
 
     def forloop(self, s, rest, env, k, ret, ind):
         pad = "  " * ind
@@ -695,7 +770,7 @@ class Translator(object):
         self.writes = list(mspec.writes)
         self.chainmap = {ch: nm for ch, (nm, _) in mspec.chains.items()}
         env = {ch: t for ch, (_, t) in mspec.chains.items()}
-        tmap = {"num": self.d.num, "bool": "bool"}
+        tmap = {"num": self.d.num, "bool": "bool", "onum": "(option %s)" % self.d.num}
         rec = mspec.coq + "_out"
         fields = [(self.chainmap[w], env[w]) for w in mspec.writes]
 
@@ -795,7 +870,47 @@ def gen_vectoring(source):
     return translate_module(source, DialectZ(), funcs, "ioflo/aid/vectoring.py")
 
 
-def gen_controlling(src_controlling, src_blending, src_navigating):
+def _class(tree, name):
+    for node in tree.body:
+        if isinstance(node, ast.ClassDef) and node.name == name:
+            return node
+    raise Untranslatable("class %s not found" % name)
+
+
+def _defs(cls):
+    return [n.name for n in cls.body if isinstance(n, ast.FunctionDef)]
+
+
+def check_lapse_call_chain(src_controlling, src_doing):
+    """ControllerPid.action starts with super().action(), which must be DoerLapse.action, whose body
+    must be exactly `self.updateLapse()` (besides the docstring and a console.profuse call); nothing in
+    between may override action/updateLapse.  Fail-closed structural check on the current source."""
+    tc, td = ast.parse(src_controlling), ast.parse(src_doing)
+    pid, base = _class(tc, "ControllerPid"), _class(tc, "ControllerBase")
+    if [ast.unparse(b) for b in pid.bases] != ["ControllerBase"]:
+        raise Untranslatable("ControllerPid bases changed: %r" % [ast.unparse(b) for b in pid.bases])
+    if [ast.unparse(b) for b in base.bases] != ["doing.DoerLapse"]:
+        raise Untranslatable("ControllerBase bases changed: %r" % [ast.unparse(b) for b in base.bases])
+    if "updateLapse" in _defs(pid) or {"updateLapse", "action"} & set(_defs(base)):
+        raise Untranslatable("action/updateLapse overridden between ControllerPid and DoerLapse")
+    imp = [n for n in tc.body if isinstance(n, ast.ImportFrom) and any(a.name == "doing" for a in n.names)]
+    if not imp or (imp[0].level, imp[0].module) != (4, "base"):
+        raise Untranslatable("controlling.py does not import doing from ....base")
+    dl = _class(td, "DoerLapse")
+    act = [n for n in dl.body if isinstance(n, ast.FunctionDef) and n.name == "action"]
+    if len(act) != 1:
+        raise Untranslatable("DoerLapse.action not found")
+    body = [st for st in act[0].body
+            if not (isinstance(st, ast.Expr) and isinstance(st.value, ast.Constant) and isinstance(st.value.value, str))]
+    body = [st for st in body if not (isinstance(st, ast.Expr) and isinstance(st.value, ast.Call) and
+                                      ast.unparse(st.value.func) == "console.profuse")]
+    if [ast.unparse(st) for st in body] != ["self.updateLapse()"]:
+        raise Untranslatable("DoerLapse.action is no longer just self.updateLapse(): %r" % [ast.unparse(st) for st in body])
+    return ["call chain checked on the source: ControllerPid.action -> super().action = DoerLapse.action = self.updateLapse() "
+            "(console.profuse ignored)"]
+
+
+def gen_controlling(src_controlling, src_blending, src_navigating, src_doing=None):
     """C46: ControllerPid.action (+ blending.blend0, navigating.wrap2) over an abstract value type V
     with the arithmetic and comparisons supplied by a record N : Num V."""
     N = "num"
@@ -857,6 +972,17 @@ def gen_controlling(src_controlling, src_blending, src_navigating):
     tr = Translator(src_controlling, d, [f_wrap2, f_blend0], "controlling.py")
     parts.append(tr.method(ms))
     notes += tr.notes
+    if src_doing is not None:
+        notes += check_lapse_call_chain(src_controlling, src_doing)
+        ul = MethodSpec("DoerLapse", "updateLapse",
+                        {"self.stamp": ("stamp", "onum"), "self.store.stamp": ("store_stamp", "onum"),
+                         "self.lapse": ("lapse", N)},
+                        ["self.stamp", "self.lapse"], coq="updateLapse")
+        tr2 = Translator(src_doing, d, [], "doing.py")
+        parts.append("")
+        parts.append(tr2.method(ul))
+        notes += tr2.notes
+        notes.append("updateLapse: .stamp values are None or a number (option); `number - None` raises TypeError")
     notes.append("shares (self.<x>.value) and parameters (self.parm.data.<y>) are read as distinct variables: "
                  "aliasing between store shares is not modelled")
     parts.append("(* translator notes:\n" + "\n".join("   " + n.replace("(*", "( *").replace("*)", "* )") for n in dict.fromkeys(notes)) + "\n*)")
